@@ -161,22 +161,22 @@ func H_C10_shuffleseqs_support() {
 	c, _ := al.GetSequenceNameById(2)
 	o := a + b + c
 	if o == "s0s1s2" {
-		verifReach("order 0 1 2")
+		verifSupport("order 0 1 2")
 	}
 	if o == "s0s2s1" {
-		verifReach("order 0 2 1")
+		verifSupport("order 0 2 1")
 	}
 	if o == "s1s0s2" {
-		verifReach("order 1 0 2")
+		verifSupport("order 1 0 2")
 	}
 	if o == "s1s2s0" {
-		verifReach("order 1 2 0")
+		verifSupport("order 1 2 0")
 	}
 	if o == "s2s0s1" {
-		verifReach("order 2 0 1")
+		verifSupport("order 2 0 1")
 	}
 	if o == "s2s1s0" {
-		verifReach("order 2 1 0")
+		verifSupport("order 2 1 0")
 	}
 }
 
@@ -240,13 +240,13 @@ func H_C10_shufflesites_support() {
 		al.ShuffleSites(0.5, 0, false)
 		r, _ := al.GetSequenceCharById(0)
 		if r[0] == 'a' && r[1] == 'B' {
-			verifReach("L=2 site 0 shuffled")
+			verifSupport("L=2 site 0 shuffled")
 		}
 		if r[0] == 'A' && r[1] == 'b' {
-			verifReach("L=2 site 1 shuffled")
+			verifSupport("L=2 site 1 shuffled")
 		}
 		if r[0] == 'A' && r[1] == 'B' {
-			verifReach("L=2 identity arrangement")
+			verifSupport("L=2 identity arrangement")
 		}
 		verifAssert(!(r[0] == 'a' && r[1] == 'b'), "rate 1/2 of 2 sites shuffles one site only")
 	case 1:
@@ -254,16 +254,16 @@ func H_C10_shufflesites_support() {
 		al.ShuffleSites(0.25, 0, true)
 		r, _ := al.GetSequenceCharById(0)
 		if r[0] == 'a' {
-			verifReach("L=4 site 0 shuffled")
+			verifSupport("L=4 site 0 shuffled")
 		}
 		if r[1] == 'b' {
-			verifReach("L=4 site 1 shuffled")
+			verifSupport("L=4 site 1 shuffled")
 		}
 		if r[2] == 'c' {
-			verifReach("L=4 site 2 shuffled")
+			verifSupport("L=4 site 2 shuffled")
 		}
 		if r[3] == 'd' {
-			verifReach("L=4 site 3 shuffled")
+			verifSupport("L=4 site 3 shuffled")
 		}
 	case 2:
 		al := vfC10Concrete(3, 1)
@@ -273,22 +273,22 @@ func H_C10_shufflesites_support() {
 		c, _ := al.GetSequenceCharById(2)
 		o := string([]byte{a[0], b[0], c[0]})
 		if o == "Aa0" {
-			verifReach("column A a 0")
+			verifSupport("column A a 0")
 		}
 		if o == "A0a" {
-			verifReach("column A 0 a")
+			verifSupport("column A 0 a")
 		}
 		if o == "aA0" {
-			verifReach("column a A 0")
+			verifSupport("column a A 0")
 		}
 		if o == "a0A" {
-			verifReach("column a 0 A")
+			verifSupport("column a 0 A")
 		}
 		if o == "0Aa" {
-			verifReach("column 0 A a")
+			verifSupport("column 0 A a")
 		}
 		if o == "0aA" {
-			verifReach("column 0 a A")
+			verifSupport("column 0 a A")
 		}
 	case 3:
 		al := vfC10Concrete(2, 4)
@@ -302,10 +302,10 @@ func H_C10_shufflesites_support() {
 		}
 		verifAssert(cnt <= 3, "rate 1/2 of 4 sites: 2 sites plus 1 rogue site at most")
 		if cnt == 3 {
-			verifReach("rogue shuffle changed a third site")
+			verifSupport("rogue shuffle changed a third site")
 		}
 		if cnt == 3 && r[3] == 'd' {
-			verifReach("last site among the three")
+			verifSupport("last site among the three")
 		}
 	}
 }
@@ -488,48 +488,48 @@ func H_C10_bootstrap_support() {
 	f, l := int(r[0]-'A'), int(r[L-1]-'A')
 	switch L*10 + f {
 	case 10:
-		verifReach("L=1 site 0 first")
+		verifSupport("L=1 site 0 first")
 	case 20:
-		verifReach("L=2 site 0 first")
+		verifSupport("L=2 site 0 first")
 	case 21:
-		verifReach("L=2 site 1 first")
+		verifSupport("L=2 site 1 first")
 	case 30:
-		verifReach("L=3 site 0 first")
+		verifSupport("L=3 site 0 first")
 	case 31:
-		verifReach("L=3 site 1 first")
+		verifSupport("L=3 site 1 first")
 	case 32:
-		verifReach("L=3 site 2 first")
+		verifSupport("L=3 site 2 first")
 	case 40:
-		verifReach("L=4 site 0 first")
+		verifSupport("L=4 site 0 first")
 	case 41:
-		verifReach("L=4 site 1 first")
+		verifSupport("L=4 site 1 first")
 	case 42:
-		verifReach("L=4 site 2 first")
+		verifSupport("L=4 site 2 first")
 	case 43:
-		verifReach("L=4 site 3 first")
+		verifSupport("L=4 site 3 first")
 	}
 	switch L*10 + l {
 	case 20:
-		verifReach("L=2 site 0 last")
+		verifSupport("L=2 site 0 last")
 	case 21:
-		verifReach("L=2 site 1 last")
+		verifSupport("L=2 site 1 last")
 	case 30:
-		verifReach("L=3 site 0 last")
+		verifSupport("L=3 site 0 last")
 	case 31:
-		verifReach("L=3 site 1 last")
+		verifSupport("L=3 site 1 last")
 	case 32:
-		verifReach("L=3 site 2 last")
+		verifSupport("L=3 site 2 last")
 	case 40:
-		verifReach("L=4 site 0 last")
+		verifSupport("L=4 site 0 last")
 	case 41:
-		verifReach("L=4 site 1 last")
+		verifSupport("L=4 site 1 last")
 	case 42:
-		verifReach("L=4 site 2 last")
+		verifSupport("L=4 site 2 last")
 	case 43:
-		verifReach("L=4 site 3 last")
+		verifSupport("L=4 site 3 last")
 	}
 	if L == 4 && r[0] == 'D' && r[1] == 'D' && r[2] == 'D' && r[3] == 'D' {
-		verifReach("L=4 last site drawn four times (with replacement)")
+		verifSupport("L=4 last site drawn four times (with replacement)")
 	}
 }
 
@@ -583,15 +583,15 @@ func H_C10_sample_support() {
 		name, _ := sub.GetSequenceNameById(0)
 		switch n*10 + vfC10NameIndex(name, n) {
 		case 20:
-			verifReach("n=2 row 0 drawn")
+			verifSupport("n=2 row 0 drawn")
 		case 21:
-			verifReach("n=2 row 1 drawn")
+			verifSupport("n=2 row 1 drawn")
 		case 30:
-			verifReach("n=3 row 0 drawn")
+			verifSupport("n=3 row 0 drawn")
 		case 31:
-			verifReach("n=3 row 1 drawn")
+			verifSupport("n=3 row 1 drawn")
 		case 32:
-			verifReach("n=3 row 2 drawn")
+			verifSupport("n=3 row 2 drawn")
 		}
 	} else {
 		sub, err := al.Sample(n - 1)
@@ -604,15 +604,15 @@ func H_C10_sample_support() {
 		}
 		switch n*10 + missing {
 		case 20:
-			verifReach("n=2 row 0 left out")
+			verifSupport("n=2 row 0 left out")
 		case 21:
-			verifReach("n=2 row 1 left out")
+			verifSupport("n=2 row 1 left out")
 		case 30:
-			verifReach("n=3 row 0 left out")
+			verifSupport("n=3 row 0 left out")
 		case 31:
-			verifReach("n=3 row 1 left out")
+			verifSupport("n=3 row 1 left out")
 		case 32:
-			verifReach("n=3 row 2 left out")
+			verifSupport("n=3 row 2 left out")
 		}
 	}
 }
@@ -705,45 +705,45 @@ func H_C10_randsubalign_support() {
 		verifAssert(off >= 0 && off+length <= L, "window inside the alignment")
 		switch L*100 + length*10 + off {
 		case 110:
-			verifReach("L=1 len=1 offset 0")
+			verifSupport("L=1 len=1 offset 0")
 		case 210:
-			verifReach("L=2 len=1 offset 0")
+			verifSupport("L=2 len=1 offset 0")
 		case 211:
-			verifReach("L=2 len=1 offset 1 (last)")
+			verifSupport("L=2 len=1 offset 1 (last)")
 		case 220:
-			verifReach("L=2 len=2 offset 0")
+			verifSupport("L=2 len=2 offset 0")
 		case 310:
-			verifReach("L=3 len=1 offset 0")
+			verifSupport("L=3 len=1 offset 0")
 		case 311:
-			verifReach("L=3 len=1 offset 1")
+			verifSupport("L=3 len=1 offset 1")
 		case 312:
-			verifReach("L=3 len=1 offset 2 (last)")
+			verifSupport("L=3 len=1 offset 2 (last)")
 		case 320:
-			verifReach("L=3 len=2 offset 0")
+			verifSupport("L=3 len=2 offset 0")
 		case 321:
-			verifReach("L=3 len=2 offset 1 (last)")
+			verifSupport("L=3 len=2 offset 1 (last)")
 		case 330:
-			verifReach("L=3 len=3 offset 0")
+			verifSupport("L=3 len=3 offset 0")
 		case 410:
-			verifReach("L=4 len=1 offset 0")
+			verifSupport("L=4 len=1 offset 0")
 		case 411:
-			verifReach("L=4 len=1 offset 1")
+			verifSupport("L=4 len=1 offset 1")
 		case 412:
-			verifReach("L=4 len=1 offset 2")
+			verifSupport("L=4 len=1 offset 2")
 		case 413:
-			verifReach("L=4 len=1 offset 3 (last)")
+			verifSupport("L=4 len=1 offset 3 (last)")
 		case 420:
-			verifReach("L=4 len=2 offset 0")
+			verifSupport("L=4 len=2 offset 0")
 		case 421:
-			verifReach("L=4 len=2 offset 1")
+			verifSupport("L=4 len=2 offset 1")
 		case 422:
-			verifReach("L=4 len=2 offset 2 (last)")
+			verifSupport("L=4 len=2 offset 2 (last)")
 		case 430:
-			verifReach("L=4 len=3 offset 0")
+			verifSupport("L=4 len=3 offset 0")
 		case 431:
-			verifReach("L=4 len=3 offset 1 (last)")
+			verifSupport("L=4 len=3 offset 1 (last)")
 		case 440:
-			verifReach("L=4 len=4 offset 0")
+			verifSupport("L=4 len=4 offset 0")
 		}
 	} else {
 		sub, err := al.RandSubAlign(length, false)
@@ -753,28 +753,28 @@ func H_C10_randsubalign_support() {
 		c := int(r[length-1] - 'A')
 		switch L*10 + c {
 		case 10:
-			verifReach("L=1 column 0")
+			verifSupport("L=1 column 0")
 		case 20:
-			verifReach("L=2 column 0")
+			verifSupport("L=2 column 0")
 		case 21:
-			verifReach("L=2 column 1")
+			verifSupport("L=2 column 1")
 		case 30:
-			verifReach("L=3 column 0")
+			verifSupport("L=3 column 0")
 		case 31:
-			verifReach("L=3 column 1")
+			verifSupport("L=3 column 1")
 		case 32:
-			verifReach("L=3 column 2")
+			verifSupport("L=3 column 2")
 		case 40:
-			verifReach("L=4 column 0")
+			verifSupport("L=4 column 0")
 		case 41:
-			verifReach("L=4 column 1")
+			verifSupport("L=4 column 1")
 		case 42:
-			verifReach("L=4 column 2")
+			verifSupport("L=4 column 2")
 		case 43:
-			verifReach("L=4 column 3")
+			verifSupport("L=4 column 3")
 		}
 		if L == 3 && length == 3 && r[0] == 'C' && r[1] == 'B' && r[2] == 'A' {
-			verifReach("L=3 columns in reverse order")
+			verifSupport("L=3 columns in reverse order")
 		}
 	}
 }
@@ -840,16 +840,16 @@ func H_C10_mutate_support() {
 		al.Mutate(1)
 		r, _ := al.GetSequenceCharById(0)
 		if r[0] == 'A' {
-			verifReach("nt A")
+			verifSupport("nt A")
 		}
 		if r[0] == 'C' {
-			verifReach("nt C")
+			verifSupport("nt C")
 		}
 		if r[0] == 'G' {
-			verifReach("nt G")
+			verifSupport("nt G")
 		}
 		if r[0] == 'T' {
-			verifReach("nt T (last)")
+			verifSupport("nt T (last)")
 		}
 	} else {
 		al := NewAlign(AMINOACIDS)
@@ -857,16 +857,16 @@ func H_C10_mutate_support() {
 		al.Mutate(0.5)
 		r, _ := al.GetSequenceCharById(0)
 		if r[0] == 'A' {
-			verifReach("aa A (first)")
+			verifSupport("aa A (first)")
 		}
 		if r[0] == 'V' {
-			verifReach("aa V (last)")
+			verifSupport("aa V (last)")
 		}
 		if r[0] == 'W' {
-			verifReach("aa W")
+			verifSupport("aa W")
 		}
 		if r[0] == 'X' {
-			verifReach("aa kept at rate 1/2")
+			verifSupport("aa kept at rate 1/2")
 		}
 	}
 }
@@ -1044,12 +1044,12 @@ func H_C10_rarefy_support() {
 	verifAssert(err == nil && sub.NbSequences() == 1, "one row kept")
 	name, _ := sub.GetSequenceNameById(0)
 	if name == "s0" {
-		verifReach("row 0 kept")
+		verifSupport("row 0 kept")
 	}
 	if name == "s1" {
-		verifReach("row 1 kept")
+		verifSupport("row 1 kept")
 	}
 	if name == "s2" {
-		verifReach("row 2 kept (last)")
+		verifSupport("row 2 kept (last)")
 	}
 }
